@@ -107,6 +107,9 @@ def w_frames(seed: int, thorough: bool) -> Part:
 
     part = Part()
     for key in keys(seed, thorough):
+        # ONE DataSecure instance per key for all frames below (as in a running system): what it sends for one frame must not depend
+        # on the frames before it - other sources (a tunnel that was given another address), other groups, other flags
+        ds = DataSecure(group_key_table={GroupAddress(g): key for g in (0x0901, 0xFFFF)}, individual_address_table={}, last_sequence_number_sending=5)
         for ga in (0x0901, 0xFFFF):
             for src in (0x1101, 0xFFFE):
                 for tp in (T.TDataGroup(), T.TDataTagGroup()):
@@ -116,7 +119,7 @@ def w_frames(seed: int, thorough: bool) -> Part:
                                 for n in (1, 2, 9, 10, 40, 200):
                                     for seq0 in (5, 2**47):
                                         part.evaluations += 1
-                                        ds = DataSecure(group_key_table={GroupAddress(ga): key}, individual_address_table={}, last_sequence_number_sending=seq0)
+                                        ds._sequence_number_sending = seq0  # noqa: SLF001
                                         data = CEMILData(flags=CEMIFlags(priority=prio, hop_count=hop, frame_type=ft, frame_format=eff), src_addr=IndividualAddress(src), dst_addr=GroupAddress(ga), tpci=tp,
                                                          payload=GroupValueWrite(DPTArray(apdu_of(n, seed))))
                                         case = {"frames": True, "key": key, "ga": ga, "src": src, "tag": isinstance(tp, T.TDataTagGroup), "eff": int(eff), "ft": ft.name, "hop": hop, "n": n, "seq0": seq0}
